@@ -3,18 +3,25 @@ from fractions import Fraction as Fr
 import itertools
 import numpy as _np
 from symnp.core import band, bor, bnot, iff, implies, smax, smin
-from .common import sublists
+from .common import sublists, TINY
 
 PROPERTY = 'C07'
-FUNCTIONS = ['rdp.mapping', 'rdp.compute_removed_points']
+FUNCTIONS = ['rdp.mapping', 'rdp.compute_removed_points', 'rdp.rdp', 'rdp.rdp_fixed', 'rdp.grdp', 'rdp.mp_grdp', 'rdp.min_point_rdp']
 BOUNDS = dict(quick='number of retained points k <= 6 (unwinding bound); curve length n and the retained indices are symbolic integers with NO upper bound; every ascending '
                     'position sub-list; sorted=False: every row permutation of the removed table for k <= 5',
               thorough='k <= 8; sorted=False: every row permutation for k <= 6 (120 permutations)')
+BOUNDS = {k: v + '; pairs returned by the simplifiers: L1 (real drivers of rdp / grdp / mp_grdp / min_point_rdp / rdp_fixed over free kernel stubs, every kernel behaviour) n <= %s, '
+                 'every min_points / length 0..n+1, symbolic thresholds; L0 exact slices of 3 small pool curves (one symbolic height, symbolic thresholds); positions: all and each single one' % ('5' if k == 'quick' else '6')
+          for k, v in BOUNDS.items()}
 ASSUMPTIONS = ['reduced is strictly increasing, starts at 0, ends at n-1 (the property\'s precondition)',
                'points is modelled as an array whose slices have length min(stop,n)-min(start,n) (Python slicing); its values are irrelevant to these functions',
-               'NumPy argsort of distinct integer keys is the sorting permutation']
+               'NumPy argsort of distinct integer keys is the sorting permutation',
+               'L1 cases: numeric kernels replaced by free solver values (see stubs); abstract counterexamples are reported only after they are realised on a concrete curve on the real package']
 CONFIG = dict(quick=dict(budget_s=150, case_wall_s=120), thorough=dict(budget_s=900, case_wall_s=700))
 VALIDATE_PATHS = True
+from .rdpstubs import STUB_DOC
+STUBS = STUB_DOC
+REPORT_KEYS = ['fn', 'layer']
 
 
 class SymPoints:
@@ -46,10 +53,53 @@ def cases(tier, seed):
         chunk = 6 if k >= 5 else len(perms)
         for i in range(0, len(perms), chunk):
             out.append(dict(fn='unsorted', k=k, perms=[list(p) for p in perms[i:i + chunk]]))
+    # ---- the (reduced, removed) pairs the simplifiers themselves return: real drivers over kernel stubs (L1, see C01) and exact slices (L0)
+    for n in ((5, 4) if q else (6, 5, 4, 3)):
+        out.append(dict(layer='L1', no_validate=True, fn='rdp', n=n, distance='shortest', metric='smape'))
+        out.append(dict(layer='L1', no_validate=True, fn='grdp', n=n, distance='shortest', metric='smape', order='segment'))
+        for mp in range(0, n + 2):
+            out.append(dict(layer='L1', no_validate=True, fn='mp_grdp', n=n, distance='shortest', metric='smape', order='segment', min_points=mp))
+            out.append(dict(layer='L1', no_validate=True, fn='min_point_rdp', n=n, min_points=mp, nt=2))
+            out.append(dict(layer='L1', no_validate=True, fn='rdp_fixed', n=n, distance='shortest', order='triangle', length=mp))
+    for ci in TINY + [4]:
+        out.append(dict(layer='L0', nra_at_decide=False, fn='min_point_rdp', curve=ci, pos=[1]))
+        out.append(dict(layer='L0', nra_at_decide=False, fn='mp_grdp', curve=ci, pos=[1], distance='shortest', metric='smape', order='segment'))
+        out.append(dict(layer='L0', nra_at_decide=False, fn='rdp_fixed', curve=ci, pos=[1], distance='shortest', order='segment'))
     return out
 
 
+def check_tables(h, what, res, n):
+    """C07 obligations on a pair returned by a simplifier (the well-formedness of the index list itself is C01's subject)"""
+    rdp = h.L.rdp
+    red, rem = res
+    r = h.ints(red)
+    if not (len(r) >= 2 and r[0] == 0 and r[-1] == n - 1 and all(a < b for a, b in zip(r, r[1:]))):
+        return r
+    rows = [[int(v) for v in (row.tolist() if hasattr(row, 'tolist') else row)] for row in rem]
+    exp = rdp.compute_removed_points(h.np.zeros((n, 2)), red)
+    exp = [[int(v) for v in (row.tolist() if hasattr(row, 'tolist') else row)] for row in exp]
+    h.prove(rows == exp, '%s: compute_removed_points reproduces the removed table returned by the simplifier' % what)
+    k = len(r)
+    for I in [list(range(k))] + [[i] for i in range(k)]:
+        for kw in (dict(), dict(sorted=False)):
+            table = rem if not kw else rem[::-1]
+            try:
+                out = h.ints(rdp.mapping(h.iarray(I), red, table, **kw))
+            except IndexError:
+                out = None       # a table with too few rows
+            h.prove(out == [r[i] for i in I], '%s: mapping(I, reduced, removed) == reduced[I] on the pair returned by the simplifier' % what)
+    return r
+
+
+def realise(case, rnd):
+    from . import C01
+    return C01.realise(case, rnd)
+
+
 def run(h, case):
+    if case.get('layer') in ('L0', 'L1'):
+        from . import C01
+        return (C01.run_L1 if case['layer'] == 'L1' else C01.run_L0)(h, case, check=check_tables)
     k = case['k']
     rdp = h.L.rdp
     n = h.integer('n', lo=2)
